@@ -12,7 +12,7 @@ import MdkVerif.Proofs.Wrap
   4 `wrap_redeliver`                  a refused event stays refused, any number of times, at any later time, and
                                       changes nothing at all
   5 `wrap_failed_record`, `wrap_reason_table`   what is written, and that the reason is one of the fixed table
-  6 `wrap_no_panic_full` is FALSE (`wrap_no_panic_full_false`, the NIP-44 short-buffer panic);
+  6 `wrap_no_panic` (the full statement, since the guard of /repo a6aae31; `wrap_short_payload_refused` is the former panic witness);
     `wrap_no_panic_partial`, `wrap_no_panic_of_guard`
 -/
 namespace MdkVerif.Props.C06Wrap
@@ -462,17 +462,14 @@ def wShort : Ev :=
   { id := 2, kind := 445, createdAt := 1000, tags := [wTag],
     content := .bytes { version := 2, len := 65, macKey := some 7, claimed := 0, inner := .garbage } }
 
-/-- … is FALSE of the code today: nostr's NIP-44 v2 reads `buffer[0..2]` after the HMAC check without checking
-    that the buffer has two bytes, and mdk has no guard of its own in front of it -/
-theorem wrap_no_panic_full_false : ¬ wrap_no_panic_full := by
-  intro h
-  exact h Cfg.default 1000 wSt wShort (by decide)
-
-/-- … and the panic leaves no record: the same event panics again on every redelivery -/
-theorem wrap_panic_repeats :
-    (process Cfg.default 1000 wSt wShort).2 = .panic ∧
-    (process Cfg.default 2000 (process Cfg.default 1000 wSt wShort).1 wShort).2 = .panic ∧
-    alookup wShort.id (process Cfg.default 1000 wSt wShort).1.recs = none := by decide
+/-- … and it HOLDS since /repo a6aae31 (`fix:` payloads too short for NIP-44 v2 are refused before the nip44 call):
+    the regenerated fact `mdkMinPayloadLen` = 99 ≥ minPayload + 2, so `wrap_no_panic_of_guard` (below) applies.  Before
+    the repair the statement was false at `wShort` (nostr's NIP-44 v2 reads `buffer[0..2]` after the HMAC check without
+    checking that the buffer has two bytes); `corpus/C06/wrap_nip44_short_buffer_panic.trace` is the regression trace. -/
+theorem wrap_short_payload_refused :
+    (process Cfg.default 1000 wSt wShort).2 ≠ .panic ∧
+    (process Cfg.default 2000 (process Cfg.default 1000 wSt wShort).1 wShort).2 ≠ .panic ∧
+    (alookup wShort.id (process Cfg.default 1000 wSt wShort).1.recs).isSome = true := by decide
 
 /-- the inputs on which NIP-44 can panic: MAC-valid payloads of `minPayload` or `minPayload + 1` bytes -/
 def shortSealed (c : Content) : Bool :=
@@ -577,6 +574,9 @@ theorem wrap_no_panic_of_guard
     unfold shortSealed at hs
     simp only [Bool.and_eq_true, decide_eq_true_eq] at hs
     omega
+
+/-- **wrap_no_panic**: the full statement, for every configuration, clock, store and event -/
+theorem wrap_no_panic : wrap_no_panic_full := wrap_no_panic_of_guard (Or.inr (by decide))
 
 /-! ### ties to Model.Client (world engine), whose dedup rule and lookback are written out by hand there -/
 
